@@ -513,7 +513,12 @@ class Run:
         ev = dict(property_id=self.prop, tier=self.tier, seed=self.seed, level="proof",
                   coverage=self.coverage, assumptions=self.assumptions, wall_s=round(wall, 2),
                   violations=len(self.violations), known_findings=self.known)
-        with open(os.path.join(VERIF, "evidence", self.prop + ".json"), "w") as f:
+        evdir = os.path.join(VERIF, "evidence")
+        if os.environ.get("VERIF_WORK"):
+            # a run against a scratch tree (seeded change / fix trial) must not overwrite the evidence of /repo
+            evdir = os.path.join(WORK, "evidence")
+            os.makedirs(evdir, exist_ok=True)
+        with open(os.path.join(evdir, self.prop + ".json"), "w") as f:
             json.dump(ev, f, indent=1, default=str)
             f.write("\n")
         for k in self.known:
